@@ -186,7 +186,15 @@ def judge_string(case, res):
     exp = ir.unescape(raw).encode('utf-8')
     labels = {}
     try:
-        out = bytes(a.assemble(src, labels=labels))
+        if len(raw) % 3 == 0:
+            # one string in three reaches the assembler as a UTF-8 FILE instead of as source text
+            res.count('string_from_file')
+            with env.scratch_dir('bbv-c10s-') as d:
+                with open(os.path.join(d, 'text.asm'), 'w', encoding='utf-8', newline='') as f:
+                    f.write(src)
+                out = bytes(a.assemble(os.path.join(d, 'text.asm'), labels=labels))
+        else:
+            out = bytes(a.assemble(src, labels=labels))
     except Exception as e:
         raise env.CaseFailure('string:refused', 'string line %r is refused: %s' % (raw, str(e)[-200:]), {'kind': 'string', 'source': src, 'expect': exp.hex()})
     if out != exp:
